@@ -176,7 +176,13 @@ class PointSkyRegion(SkyRegion):
 
     def contains(self, skycoord, wcs):  # pylint: disable=unused-argument
         # points never include anything
-        return not self.meta.get('include', True)
+        in_reg = (False if skycoord.isscalar
+                  else np.zeros(skycoord.shape, dtype=bool))
+
+        if self.meta.get('include', True):
+            return in_reg
+        else:
+            return np.logical_not(in_reg)
 
     def to_pixel(self, wcs):
         center_x, center_y = wcs.world_to_pixel(self.center)
